@@ -20,6 +20,9 @@ func c11Body(maxN map[string]int, allPerms map[string]bool, maxTuple map[string]
 		nmax := maxN[c.Tier]
 		n := 1 + c.Choose(nmax)
 		g := model.ChooseGraph(n, 2, c.Choose)
+		if hasMerge(g) && c.Choose(2) == 1 {
+			g = g.SwapMergeParents()
+		}
 		tas := timeAssignments(n, allPerms[c.Tier] || n <= 4)
 		times := tas[c.Choose(len(tas))]
 		c.Shard()
@@ -153,7 +156,7 @@ func init() {
 	register(&mc.Check{
 		ID:    "C11",
 		Level: "exploration",
-		Rule: "every commit DAG with 1..n nodes (node i picks <=2 parents among 0..i-1: merges, several roots) x timestamp vectors (all n! permutations of distinct times incl. reversed, all equal, pairwise equal) " +
+		Rule: "every commit DAG with 1..n nodes (node i picks <=2 parents among 0..i-1, merge parents in both orders: merges, several roots) x timestamp vectors (all n! permutations of distinct times incl. reversed, all equal, pairwise equal) " +
 			"stored as real commit objects; on each: IsAncestorOf for all n^2 ordered pairs, the PopInsertParents walk from every node, SeekCommonAncestor on every ordered tuple of 2..k (not necessarily distinct) commits, " +
 			"all compared with bitmask reachability. n<=4,k<=3 quick; n<=5 (all 120 permutations), k<=4 thorough. A case is non-trivial (and counted distinct by graph+times) when n>=3 and some tuple has a common ancestor",
 		Assumptions: []string{"graphs beyond 5 nodes and more than 2 parents per commit are not enumerated", "commit times have one-second resolution (the format's)"},
